@@ -36,11 +36,11 @@ DIMS = {
     "lin_vec": ["bbox_h", "diag", "vert", "pct", "short", "user"],
     "lin_gt": ["none", "rot", "nonuniform", "skew", "translate", "involutory", "rotscale"],
     "lin_spread": ["pad", "repeat", "reflect"],
-    "lin_stops": ["two", "three", "stopop", "palvar", "pctoff", "shapeop", "dupoff", "unsorted", "zigzag"],
+    "lin_stops": ["two", "three", "stopop", "palvar", "pctoff", "shapeop", "dupoff", "unsorted", "zigzag", "fadein"],
     "rad_geom": ["c", "focal", "fr", "rpct", "user", "user_focal"],
     "rad_gt": ["none", "rot", "nonuniform", "skew", "translate", "rotscale"],
     "rad_spread": ["pad", "repeat", "reflect"],
-    "rad_stops": ["two", "three", "stopop"],
+    "rad_stops": ["two", "three", "stopop", "fadein"],
     "grp": ["g05", "none", "nested", "gradgrp", "reusedgrp", "twocopies", "samecopies", "sparse3", "siblings", "emptyglyph"],
     "seqlen": [1, 2, 3],
     "nglyphs": [2, 1, 3],
@@ -139,6 +139,8 @@ def _lin_stops(name):
         "palvar": [(0, "var(--color3, red)", 1), (1, "blue", 1)],
         "pctoff": [("0%", "red", 1), ("40%", "yellow", 1), ("100%", "blue", 1)],
         "shapeop": [(0, "red", 0.5), (1, "blue", 1)],
+        # a gradient that fades in from a fully transparent first stop: the shape paints, though its first colour is invisible
+        "fadein": [(0, "red", 0), (1, "blue", 1)],
         # two stops at one offset (a hard edge), and offsets that decrease / leave [0,1] (SVG clamps each to [previous, 1])
         "dupoff": [(0, "red", 1), (0.5, "yellow", 1), (0.5, "blue", 1), (1, "green", 1)],
         "unsorted": [(0.2, "red", 1), (0.1, "yellow", 1), (0.7, "blue", 1), (1.3, "green", 1)],
@@ -184,7 +186,7 @@ def mk(a):
 
     # --- radial gradient on the oval (glyph B) ------------------------------------------
     rstops = {"two": STOPS_YG, "three": [(0, "yellow", 1), (0.5, "red", 0.5), (1, "green", 1)],
-              "stopop": [(0, "yellow", 0.3), (1, "green", 0.9)]}[a["rad_stops"]]
+              "stopop": [(0, "yellow", 0.3), (1, "green", 0.9)], "fadein": [(0, "yellow", 0), (1, "green", 1)]}[a["rad_stops"]]
     rg = a["rad_geom"]
     if rg in ("user", "user_focal"):
         cx, cy = UB(65, 65)
